@@ -209,6 +209,12 @@ def build_harness(cfg, work, log):
     args = ["go", "build", "-tags", "verif"]
     if cfg.get("race"):
         args.append("-race")
+    if cfg.get("cover_pkgs") and (os.environ.get("VERIF_COVER") or cfg.get("_tier") == "thorough"):
+        # measure which statements of the anchored packages the correspondence run reaches
+        # (the main package must be among the instrumented ones, or nothing is written at exit)
+        args += ["-cover", "-coverpkg=" + ",".join(["github.com/ipfs/boxo/" + p for p in cfg["cover_pkgs"]]
+                                                   + ["verifharness/" + cfg["harness_pkg"].lstrip("./")])]
+        os.makedirs(os.path.join(work, "cover"), exist_ok=True)
     if repo() != "/repo":
         mf = os.path.join(work, "go.mod")
         s = open(os.path.join(HARNESS, "go.mod")).read().replace("=> /repo", "=> " + repo())
@@ -269,7 +275,11 @@ def run_exec(hx, cases, work, tag, timeout=3600):
         p = os.path.join(work, "ops-%s-%d.txt" % (tag, guard))
         open(p, "w").write(ops_text(remaining))
         with open(p, "rb") as fin:
-            rc, o, e, _ = run([hx, "exec"], stdin=fin, timeout=timeout, env=dict(os.environ, GOMEMLIMIT="6GiB"))
+            env = dict(os.environ, GOMEMLIMIT="6GiB")
+            covdir = os.path.join(work, "cover")
+            if os.path.isdir(covdir):
+                env["GOCOVERDIR"] = covdir
+            rc, o, e, _ = run([hx, "exec"], stdin=fin, timeout=timeout, env=env)
         got = split_cases(o.splitlines())
         for cid, ls, complete in got:
             results[cid] = (ls, complete, "" if complete else ("exit %d: %s" % (rc, e[-800:].replace("\n", " | "))))
@@ -320,6 +330,40 @@ def judge_case(ops, impl, model):
                               i, ops[i] if i < len(ops) else "?", plain[i] if i < len(plain) else None,
                               model[i] if i < len(model) else None)})
     return fails
+
+
+def collect_cover(cfg, work):
+    """Statement coverage of the anchored boxo packages reached by the correspondence run (GOCOVERDIR)."""
+    covdir = os.path.join(work, "cover")
+    if not os.path.isdir(covdir) or not os.listdir(covdir):
+        return None
+    prof = os.path.join(work, "cover.txt")
+    rc, o, e, _ = run(["go", "tool", "covdata", "textfmt", "-i=" + covdir, "-o=" + prof], cwd=HARNESS, env=goenv())
+    if rc != 0:
+        return {"error": (o + e)[-300:]}
+    rc, o, e, _ = run(["go", "tool", "cover", "-func=" + prof], cwd=HARNESS, env=goenv())
+    files = set(cfg.get("cover_files", []))
+    per_pkg, zero, total = {}, [], None
+    for l in o.splitlines():
+        f = l.split()
+        if len(f) < 3:
+            continue
+        if f[0] == "total:":
+            total = f[-1]; continue
+        path, fn, pct = f[0].rsplit(":", 2)[0], f[1], f[-1]
+        if not path.startswith("github.com/ipfs/boxo/"):
+            continue
+        rel = path.replace("github.com/ipfs/boxo/", "")
+        if files and rel not in files:
+            continue
+        pk = os.path.dirname(rel)
+        a = per_pkg.setdefault(pk, [0, 0.0])
+        a[0] += 1; a[1] += float(pct.rstrip("%"))
+        if pct == "0.0%" and not rel.endswith("_verif.go"):
+            zero.append(rel + ":" + fn)
+    return {"total_statements_covered": total,
+            "mean_function_coverage_by_package": {k: round(v[1] / v[0], 1) for k, v in per_pkg.items()},
+            "functions_never_reached": zero[:60], "functions_never_reached_count": len(zero)}
 
 
 def meta_of(impl):
@@ -385,6 +429,7 @@ def write_replay(pid, seed, name, obj):
 def check(pid, tier, seed, n_override=None, replay=None):
     t0 = time.time()
     cfg = load_cfg(pid)
+    cfg["_tier"] = tier
     work = os.path.join(WORKROOT, "%s-%d" % (pid, os.getpid()))
     shutil.rmtree(work, ignore_errors=True)
     os.makedirs(work)
@@ -423,12 +468,13 @@ def check(pid, tier, seed, n_override=None, replay=None):
                 raise RuntimeError("generator failed: " + e[-500:])
             cases += [(cid, ops) for cid, ops, _ in split_cases(o.splitlines())]
         impl = run_exec(hx, cases, work, "main")
+        cover = collect_cover(cfg, work)
         model, mrc, merr, mdt = run_model(cfg, cases, work, "main")
         log("model driver rc=%s %.1fs %s" % (mrc, mdt, merr[-300:]))
         # ---- judge
         known = [k for k in load_known() if k.get("property") == pid and k.get("status") == "known"]
         known_sigs = {k["sig"]: k for k in known}
-        stats = {"evaluations": 0, "ops": 0, "kinds": {}, "nontrivial": set(), "samples": [], "diff_cases": 0}
+        stats = {"evaluations": 0, "ops": 0, "kinds": {}, "nontrivial": set(), "samples": [], "diff_cases": 0, "cover": cover}
         failing = {}     # (kind,sig) -> first (cid, ops, fails, implLines, modelLines)
         seen_known = {}
         for cid, ops in cases:
@@ -540,6 +586,7 @@ def write_evidence(cfg, tier, seed, proof, stats, nviol, known_lines, wall, note
             "ops_executed": stats["ops"],
             "kinds_histogram": dict(sorted(stats["kinds"].items())),
             "model_impl_diff_cases": stats["diff_cases"],
+            "go_statement_coverage": stats.get("cover"),
             "correspondence": "%s (Go, real code in-process) vs %s (Lean model), same op lines, outputs diffed line by line" % (
                 cfg["harness_pkg"], cfg["driver"]),
         })
